@@ -99,6 +99,8 @@ def strategy_impl(draw, tier):
         "data_name": draw(st.sampled_from(["phi", None])),
         "dtype": dtype,
         "layout": draw(st.sampled_from(["C", "C", "F", "view", "neg"])),   # memory layout of the input
+        # the Python types of the arguments: plain, numpy scalars / strings / arrays, OrderedDict + tuples, 0-d arrays
+        "arg_types": draw(st.sampled_from(["plain", "plain", "plain", "numpy", "odict", "0d"])),
         "carry_coords": draw(st.booleans()),                        # input carrying the dataset's coordinates or none
         "decoy_first": draw(st.booleans()),                         # another Grid with other settings is built and used first
     }
@@ -106,6 +108,35 @@ def strategy_impl(draw, tier):
 
 def strategy(tier):
     return strategy_impl(tier)
+
+
+def table_cases():
+    """The finite table behind the property, in full: 4 operators x 8 shifts x 3 rules x where the rule and the fill value come
+    from (grid default / per call / both, the call winning) - on one small fixed array with distinct values, a non-zero
+    grid-level fill value and another per-call one.  Random search reaches each cell of this product only now and then."""
+    vals = [[3.0, -1.5, 4.25, -1.0, 5.5], [-2.0, 7.0, 1.0, -8.5, 2.0]]
+    out = []
+    for op in OPS:
+        for frm, to in M.VALID_SHIFTS:
+            n = 5 - M.LEN_DELTA[frm]   # the centre-cell count that makes the input 5 long
+            positions = ["center"] + [p for p in gen.OTHER_POS if p in (frm, to)]
+            axis = {"name": "X", "n": n, "positions": positions, "default_shifts": None}
+            for rule in M.RULES:
+                for label, grid, cb, cf in gen.rule_sources(rule):
+                    out.append({
+                        "axes": [axis], "grid": grid, "op": op, "op_axes": ["X"], "axis_spelling": "str", "data_pos": {"X": frm},
+                        "dims": ["e0", gen.dim_name("X", frm)], "values": vals, "to": {"X": to}, "to_spelling": "scalar", "to_extra": {},
+                        "call_boundary": cb, "call_fill": cf, "reverse_mappings": False, "explicit_none": False, "keep_coords": None,
+                        "data_name": "phi", "dtype": "float64", "layout": "C", "carry_coords": False, "decoy_first": False, "arg_types": "plain",
+                    })
+    return out
+
+
+def exhaustive_part(tier, seed):
+    from vfw.runner import enumerate_cases
+
+    cases = table_cases()
+    return {"result": enumerate_cases(PROPERTY, cases), "extra": {"enumerated_table_cells": len(cases)}}
 
 
 def spell_axis(op_axes, spelling):
@@ -133,6 +164,8 @@ def call_kwargs(case, to):
             kw.setdefault(k, None)
     if case.get("keep_coords") is not None:
         kw["keep_coords"] = case["keep_coords"]
+    if case.get("arg_types", "plain") != "plain":
+        kw = {k: build.retype(v, case["arg_types"]) for k, v in kw.items()}
     return kw
 
 
@@ -182,7 +215,7 @@ def check(case, ctx):
         getattr(decoy, case["op"])(da, list(case["op_axes"]), **call_kwargs(dict(case, to_spelling="dict", call_boundary=None, call_fill=None), targets))
     fn = getattr(grid, case["op"])
     kw = call_kwargs(case, case["to"])
-    got = must_return(f"Grid.{case['op']}", fn, da, spell_axis(case["op_axes"], case["axis_spelling"]), **kw)
+    got = must_return(f"Grid.{case['op']}", fn, da, build.retype(spell_axis(case["op_axes"], case["axis_spelling"]), case.get("arg_types")), **kw)
     compare(got, exp, exp_dims, "result vs reference model", case)
 
     # the pre-defined 1-D grid ufunc of xgcm.gridops called directly (rule and fill value spelled out per call)
